@@ -6,6 +6,8 @@ import (
 	"fmt"
 	"go/token"
 	"go/types"
+	"sort"
+	"strings"
 
 	"golang.org/x/tools/go/ssa"
 )
@@ -125,6 +127,82 @@ func runC20(c *Ctx) {
 	c.Explanation = "Decides: (R-UNSAFE-BOUNDS) each of the unsafe 8-byte word accesses in package mbits lies inside the slice for every length: index expressions are reduced to linear forms over n = len(data) and q = n &^ 7 with the axioms 0 ≤ q ≤ n, q ≡ 0 (mod 8), n − q ≤ 7; induction variables get a congruence from their ±8 step and a one-sided bound from their initial value, the dominating loop guard supplies the other side; the obligations 0 ≤ i and i + 8 ≤ n are then decided by sign analysis of the linear forms. These are exactly the accesses Go's own bounds checks do not cover. (R-TRUNC-PREFIX) Trunc returns its argument or s[:h] with h reached from n only by decrements, under n < len(s), and every s[h−1] is guarded by h > 0 — so the result is a prefix of at most n bytes and cannot panic. (R-CMP-RANGE) every value CompareNatural returns is a result of cmp.Compare, hence in {−1,0,1}. Does NOT decide that the zero counts are right, UTF-8 validity, the 4-byte clause, or that CompareNatural is a total preorder."
 	c.rule("R-UNSAFE-BOUNDS", 0, "every *uint64 access through unsafe.Pointer(&data[i]) satisfies 0 <= i and i+8 <= len(data)")
 	c.rule("R-TRUNC-PREFIX", 2, "Trunc returns s or s[:h], h ∈ closure{n, h'−c}, under n < len(s); every s[h−1] is dominated by h > 0")
+	c.rule("R-CLASS-AGREE", 0, "the token parsers CompareNatural alternates between classify bytes with the same predicate: what one refuses as a digit the other accepts as text (otherwise neither consumes and the comparison never ends)")
+	if cn := P.Func("mstr", "", "CompareNatural"); cn != nil {
+		isPred := func(t types.Type) bool {
+			sig, ok := t.Underlying().(*types.Signature)
+			if !ok || sig.Params().Len() != 1 || sig.Results().Len() != 1 {
+				return false
+			}
+			pb, ok1 := sig.Params().At(0).Type().Underlying().(*types.Basic)
+			rb, ok2 := sig.Results().At(0).Type().Underlying().(*types.Basic)
+			return ok1 && ok2 && pb.Info()&types.IsInteger != 0 && rb.Kind() == types.Bool
+		}
+		// the parsers: same-package static callees of CompareNatural that take a string
+		var parsers []*ssa.Function
+		seenP := map[*ssa.Function]bool{}
+		allInstrs(cn, func(in ssa.Instruction) {
+			if call, ok := in.(*ssa.Call); ok {
+				if cal := staticCallee(&call.Call); cal != nil && origin(cal).Blocks != nil && origin(cal).Pkg == origin(cn).Pkg && !seenP[origin(cal)] && len(origin(cal).Params) == 1 {
+					if b, ok := origin(cal).Params[0].Type().Underlying().(*types.Basic); ok && b.Kind() == types.String {
+						seenP[origin(cal)] = true
+						parsers = append(parsers, origin(cal))
+					}
+				}
+			}
+		})
+		preds := func(fn *ssa.Function) []string {
+			set := map[string]bool{}
+			for _, g := range buildCallScope(fn).fns {
+				allInstrs(g, func(in ssa.Instruction) {
+					call, ok := in.(*ssa.Call)
+					if !ok {
+						return
+					}
+					if cal := staticCallee(&call.Call); cal != nil && isPred(origin(cal).Signature) {
+						set[fnName(origin(cal))] = true
+					}
+					for _, a := range call.Call.Args {
+						if f, ok := a.(*ssa.Function); ok && isPred(f.Signature) {
+							set[fnName(origin(f))] = true
+						}
+						if mc, ok := a.(*ssa.MakeClosure); ok && isPred(mc.Fn.(*ssa.Function).Signature) {
+							set["closure in "+fnName(g)] = true
+						}
+					}
+				})
+			}
+			var out []string
+			for k := range set {
+				if !strings.HasPrefix(k, fnName(fn)) {
+					out = append(out, k)
+				}
+			}
+			sort.Strings(out)
+			return out
+		}
+		if len(parsers) >= 2 {
+			c.sawFn(fnName(cn))
+			ref := preds(parsers[0])
+			okAll := true
+			var desc []string
+			for _, p := range parsers {
+				ps := preds(p)
+				desc = append(desc, fmt.Sprintf("%s uses %v", fnName(p), ps))
+				// a parser that classifies inline (no named predicate) cannot be compared by identity: not judged
+				if len(ps) > 0 && len(ref) > 0 && strings.Join(ps, ",") != strings.Join(ref, ",") {
+					okAll = false
+				}
+				if len(ref) == 0 {
+					ref = ps
+				}
+			}
+			// only judged when the parsers classify through named predicates at all
+			if len(ref) > 0 || !okAll {
+				c.judge(okAll, "R-CLASS-AGREE", "mstr.CompareNatural:token classes", cn.Pos(), strings.Join(desc, "; "), "the token parsers classify characters differently ("+strings.Join(desc, "; ")+"): a character that is a digit for one and not for the other is consumed by neither, so CompareNatural loops forever or splits tokens inconsistently")
+			}
+		}
+	}
 	c.rule("R-CMP-RANGE", 2, "every return of CompareNatural is a cmp.Compare result or a constant in {-1,0,1}")
 
 	// ---- R-UNSAFE-BOUNDS
